@@ -34,7 +34,7 @@ CHECKS = {
            "oracle: no panic outside the known classes (and only where the model predicts it), compile errors only for large bounds. Partial: stack exhaustion / "
            "memory are outside any Gallina model.",
     'C06': "Proved: a glob that builds has ordered, non-degenerate bounds and no adjacent boundaries at every node (the level-order enumeration is proved to reach "
-           "every descendant; the fuel of both breadth-first traversals of the rule checker is proved adequate for every tree); no concatenation the parser produces holds two adjacent zero-or-more wildcards; and the boundary rule over expansions is sound for every glob without repetitions, however the alternations nest (C06_built_globs_without_repetitions_have_no_adjacent_boundaries: the breadth-first branch check characterised declaratively - every reachable item is processed without error - and an induction that carries the inherited outer context through nested alternations; parsed trees have the shape the branch rules assume; the same for adjacent zero-or-more wildcards: C06_built_globs_without_repetitions_have_no_adjacent_zero_or_more_wildcards); and the other direction for the boundary rule - no false rejection: an AdjacentBoundary verdict on an expression without repetitions always has a witness expansion (C06_adjacent_boundary_verdicts_have_a_witness: every item the branch check reaches is embedded between real neighbours; C06_adjacent_zero_or_more_verdicts_have_a_witness likewise). Tie: Ok/Err + rule kind vs the model "
+           "every descendant; the fuel of both breadth-first traversals of the rule checker is proved adequate for every tree); no concatenation the parser produces holds two adjacent zero-or-more wildcards; and the boundary rule over expansions is sound for every glob without repetitions, however the alternations nest (C06_built_globs_without_repetitions_have_no_adjacent_boundaries: the breadth-first branch check characterised declaratively - every reachable item is processed without error - and an induction that carries the inherited outer context through nested alternations; parsed trees have the shape the branch rules assume; the same for adjacent zero-or-more wildcards: C06_built_globs_without_repetitions_have_no_adjacent_zero_or_more_wildcards; and with repetitions that are written out at least once and whose bodies begin and end with a leaf: C06_built_globs_with_required_repetitions_have_no_adjacent_boundaries / _zero_or_more_wildcards - consecutive copies meet at the leaf terminals check_repetition compared; the complement is the known class wraparound_nested_edge and the optional repetitions); and the other direction for the boundary rule - no false rejection: an AdjacentBoundary verdict on an expression without repetitions always has a witness expansion (C06_adjacent_boundary_verdicts_have_a_witness: every item the branch check reaches is embedded between real neighbours; C06_adjacent_zero_or_more_verdicts_have_a_witness likewise). Tie: Ok/Err + rule kind vs the model "
            "of the repaired checker. Oracle: Glob::new(e).is_ok() <=> an independent re-statement of the documented rules over expansions of the parse tree (two named "
            "known classes).",
     'C07': "Proved (all inputs): at the level of the documented language an alternation is the union of its branches and a repetition is its body written out a "
@@ -51,14 +51,14 @@ CHECKS = {
            "Oracle: glob matches p <=> prefix joined with a remainder the postfix matches; postfix unrooted; re-partition identity; rebuild of the displayed postfix.",
     'C09': "Proved (partial, stated as such): soundness on the class of patterns all of whose expansions end in a tree wildcard; and the verdict itself for every flat "
            "rule-checked pattern not ending in a separator (C09_flat_always_sound: an Always verdict of the model of the pinned code means the last tree wildcard is "
-           "followed by `*` components only - C09_always_means_open_tail - and then everything beneath a matched path is matched; C09_built_flat_globs_always_sound: for flat globs that build the rule and parser side conditions are discharged); and for every glob that builds and has no repetition, however the alternations nest (C09_built_globs_without_repetitions_always_sound: every expansion is covered by a member of the term of the exhaustiveness fold, an unbounded member means a tree wildcard followed by separators and `*` only, the rule-checker theorems of C06 over expansions make that tail `*`, `*/*`, ...; excluded: the known class trailing_boundary); and with repetitions that are written out at least once and are bounded above or hold a bounded token (C09_built_globs_with_required_repetitions_always_sound: `<a:1,2>/**`, `<a/:1,>*/**/*`; upper bounds survive conjunction, finalisation and products by ranges bounded above; per expansion that respects the two adjacency rules, which C06 discharges only without repetitions). Tie: is_exhaustive() and the negation's "
+           "followed by `*` components only - C09_always_means_open_tail - and then everything beneath a matched path is matched; C09_built_flat_globs_always_sound: for flat globs that build the rule and parser side conditions are discharged); and for every glob that builds and has no repetition, however the alternations nest (C09_built_globs_without_repetitions_always_sound: every expansion is covered by a member of the term of the exhaustiveness fold, an unbounded member means a tree wildcard followed by separators and `*` only, the rule-checker theorems of C06 over expansions make that tail `*`, `*/*`, ...; excluded: the known class trailing_boundary); and with repetitions that are written out at least once and are bounded above or hold a bounded token (C09_built_globs_with_required_repetitions_always_sound: `<a:1,2>/**`, `<a/:1,>*/**/*`; upper bounds survive conjunction, finalisation and products by ranges bounded above; per expansion that respects the two adjacency rules; C09_built_globs_with_required_repetitions_always_sound_unconditionally discharges them by C06 with repetitions when the bodies begin and end with a leaf). Tie: is_exhaustive() and the negation's "
            "exhaustive/non-exhaustive partition vs the model of the repaired sequencer. Oracle: for every Always verdict, descendants of matched canonical paths are matched.",
     'C10': "Proved (partial, stated as such; all patterns of the class x all canonical paths): every pattern without repetitions - alternations, concatenations, leaves "
            "and tree wildcards at any nesting - reports a depth variance that contains the component count of every matched canonical path "
            "(C10_patterns_without_repetitions_sound / C10_built_globs_without_repetitions_sound_unconditionally, where adjacency is discharged by the rule-checker theorem of C06, and C10_built_globs_without_repetitions_sound_for_paths_rooted_like_the_glob, where the path is rooted exactly when has_root says Always: terms are sound summaries of flat sequences, summaries compose under "
            "conjunction whatever the grouping, the disjunction covers its operands; the matching expansion has no adjacent boundaries; the known class closed_variant_finalize "
            "is excluded by its predicate); every flat glob that builds, with or without tree wildcards (C10_built_flat_globs_sound, C10_flat_with_tree_wildcards_sound, "
-           "C10_flat_sound: exact depth without tree wildcards, a sound lower bound with them); and with repetitions that are written out at least once and whose body has a single depth term (C10_patterns_with_simple_repetitions_sound: ranges instead of exact counts; C10_conjunction_sound, C10_product_sound for arbitrary ranges). Optional repetitions and bodies with several terms: the general statement is in the file as C10_full. Tie: depth() exact variance vs the model of the whole algebra "
+           "C10_flat_sound: exact depth without tree wildcards, a sound lower bound with them); and with repetitions that are written out at least once and whose body has a single depth term (C10_patterns_with_simple_repetitions_sound: ranges instead of exact counts; C10_conjunction_sound, C10_product_sound for arbitrary ranges; C10_built_globs_with_simple_repetitions_sound_unconditionally: adjacency discharged by C06 with repetitions when the bodies begin and end with a leaf). Optional repetitions and bodies with several terms: the general statement is in the file as C10_full. Tie: depth() exact variance vs the model of the whole algebra "
            "(conjunction table, disjunction over hash sets, products, finalize). Oracle: component count of every matched canonical path within the reported variance.",
     'C11': "Proved (all token trees, combinators included): C11_one_and_only - if the pattern reports invariant text, its documented language is exactly that text: no "
            "other text belongs to it (C11_unique; hypothesis on the two tables: a caseless character only folds to itself; validated over all code points on every "
